@@ -223,7 +223,7 @@ props["C20"] = {
     "model_oracle_prefixes": ["zc run "],
     "nontrivial": r"^(zc run |ck run |# c20 body )",
     "timeout": {"quick": 900, "thorough": 7200},
-    "rule": "400 (quick) / 8,000 (thorough) generated closed returning computations of ZCore (ret, do, let, pair patterns, functions and application, thunks and force, data constructors and match, at result types Int64 and String; bodies with host operations, comparison, fix or codata are skipped because the checker refuses to inline sealed definitions into a monadic block or the translation is not specified for them - counted under skipped_*) are emitted twice over the real lib/std/control/monad.zy: plain (`def ! plain : Ret A = body`) and translated (`def ! translated = @[monadic] begin body end`, run as `! translated Ret { ! ret_monad }` with the identity instance return = ret, bind = run then continue); both are checked and run by the real pipeline and must give the same exit code and output whenever the translated block is accepted (a rejected translated block is outside the property and is counted, with samples in the evidence). The Lean reference semantics runs the same body (`zc run`) and must give the same answer as both real runs; the machine mirror runs the real linked translated program (`ck run`).",
+    "rule": "400 (quick) / 8,000 (thorough) generated closed returning computations of ZCore (ret, do, let, pair patterns, functions and application, thunks and force, data constructors and match, references to zero to two global function definitions - the same one called two or three times in sequence - at result types Int64 and String; core types come from the intrinsic files so that globals can be inlined; bodies with host operations, comparison, fix or codata are skipped because the checker refuses to inline sealed definitions into a monadic block or the translation is not specified for them - counted under skipped_*) are emitted twice over the real lib/std/control/monad.zy: plain (`def ! plain : Ret A = body`) and translated (`def ! translated = @[monadic] begin body end`, run as `! translated Ret { ! ret_monad }` with the identity instance return = ret, bind = run then continue); both are checked and run by the real pipeline and must give the same exit code and output whenever the translated block is accepted (a rejected translated block is outside the property and is counted, with samples in the evidence). The Lean reference semantics runs the same body (`zc run`) and must give the same answer as both real runs; the machine mirror runs the real linked translated program (`ck run`).",
     "explanation": "The type-directed construction in elaborate/monadic (2,800 lines: environment lifting, structure terms, basis resolution) is not mirrored. What is kernel-checked is the identity instance itself on ZCore: the translation with the identity instance inlined (`liftIdC`: ret v becomes (fn value => ret value) v, do x <- m; n becomes idBind {m} {fn x => n}) preserves the reference behaviour in both directions for every ZCore computation (ground results, exit, trap; goes wrong only where the plain term does) and satisfies the left unit law. The real translation is tied to this by the three-way agreement on every generated body.",
     "trusted_base": [KERNEL, AXIOMS, HARNESS,
                      "modelled, not verified: the shape of the translation at the identity instance (ZV/Model/Monadic.lean) follows the published algebra translation the code cites; it is not compared term by term with the elaborator's output - the linked translated program is run on the machine mirror and compared by behaviour",
